@@ -3,10 +3,13 @@
 VERUS_UNITS = {
     "u4_policy": dict(template="units/u4_policy.vrs", rlimit=80),
     "u1_estimator": dict(template="units/u1_estimator.vrs", rlimit=80),
+    "u5_ttl": dict(template="units/u5_ttl.vrs", rlimit=80),
 }
 
 # Kani harness groups: appended as a child module to `file` in a scratch copy of /repo
 KANI_GROUPS = {
+    "ttl": dict(file="src/ttl.rs", include="kani/ttl.rs", args=[], timeout=1500,
+                trusted=["kani/ttl: SystemTime::now is stubbed by a settable clock (faithful: Time only calls now()/elapsed()/duration_since()); seconds below 2^40 (year 36812); the OS clock is assumed monotone between the two reads of one scenario (elapsed().unwrap() panics otherwise)"]),
     "bbloom": dict(file="src/bbloom.rs", include="kani/bbloom.rs", args=[], timeout=1200,
                    trusted=["kani/bbloom: little-endian target (x86-64) byte order; layouts of 8 (quick) and 16 (thorough) words; Bloom::new builds 2^k-bit arrays whose addressing code does not depend on the length"]),
 }
@@ -24,6 +27,8 @@ PROPS = {
     "C13": dict(units=["u1_estimator"], kani=["bbloom"], replay=["estimator"]),
     "C14": dict(units=["u1_estimator"], kani=["bbloom"], replay=["estimator"]),
     "C20": dict(units=["u1_estimator"], kani=["bbloom"], replay=["estimator"]),
+    "C03": dict(units=["u5_ttl"], kani=["ttl"], replay=["ttl"]),
+    "C05": dict(units=["u5_ttl"], kani=["ttl"], replay=["ttl"]),
 }
 
 ASSUMPTIONS = {
